@@ -166,7 +166,7 @@ func runMuxStruct(c *mon.Ctx, prop string) {
 				continue
 			}
 			r := c.Rng("grid", pl)
-			for shape := 0; shape < 14; shape++ {
+			for shape := 0; shape < 16; shape++ {
 				p := &astits.Packet{Header: astits.PacketHeader{PID: 0x1500, HasPayload: pl > 0, ContinuityCounter: uint8(shape)}, Payload: gen.Bytes(r, int(pl))}
 				switch shape / 2 {
 				case 1:
@@ -197,6 +197,17 @@ func runMuxStruct(c *mon.Ctx, prop string) {
 					a.TransportPrivateDataLength = []int{0, len(a.TransportPrivateData) - 1, len(a.TransportPrivateData) + 1, 255}[r.IntN(4)]
 					p.AdaptationField = a
 					c.Count("writepacket_private_data_length_field_inconsistent")
+				case 7:
+					// more reserved bytes at the end of the adaptation extension than a packet (or the 8 bit extension length) holds
+					p.Header.HasAdaptationField = true
+					a := gen.RandomAF(r, 1+r.IntN(30), 16|r.IntN(16), -1)
+					a.HasAdaptationExtensionField = true
+					if a.AdaptationExtensionField == nil {
+						a.AdaptationExtensionField = &astits.PacketAdaptationExtensionField{}
+					}
+					a.AdaptationExtensionField.ReservedLength = []int{170, 184, 245, 246, 250, 254, 255, 256, 300, 511, 512}[r.IntN(11)]
+					p.AdaptationField = a
+					c.Count("writepacket_oversized_extension_reserved_bytes")
 				}
 				if !p.Header.HasPayload {
 					// self-consistent adaptation-only packet: the field fills the packet (oversize shapes stay as they are)
